@@ -226,6 +226,7 @@ func run(c *vrun.Case, s scenario) vrun.Result {
 	}()
 	// drain of the reply inbox
 	var gotReplies []string
+	var mu sync.Mutex
 	rctx, rcancel := context.WithCancel(ctx)
 	var replyWG sync.WaitGroup
 	replyWG.Add(1)
@@ -236,11 +237,12 @@ func run(c *vrun.Case, s scenario) vrun.Result {
 			if err != nil {
 				return
 			}
+			mu.Lock()
 			gotReplies = append(gotReplies, fmt.Sprintf("%s|%s|%s", rc.CallID, rc.RequestCallID, rc.Payload))
+			mu.Unlock()
 		}
 	}()
 
-	var mu sync.Mutex
 	var results []callRes
 	var wg sync.WaitGroup
 	for ci := 0; ci < s.Callers; ci++ {
@@ -368,7 +370,8 @@ func run(c *vrun.Case, s scenario) vrun.Result {
 }
 
 func gotRepliesSnapshot(p *[]string, mu *sync.Mutex) []string {
-	// gotReplies is appended by one goroutine; reading its length racily is fine for a progress probe only
+	mu.Lock()
+	defer mu.Unlock()
 	return *p
 }
 
